@@ -164,7 +164,18 @@ func Build() func(hist []string) hx.GView {
 		}
 		key := fmt.Sprintf("%s|up=%v|want=%s|shut=%v|lb=%d|lg=%d|lis=%d|setups>%v|tm=%d|nb=%d", c19snap.Snap(w.p), w.d.AvahiUp, w.want, w.shutReturned, w.d.LiveBrowsers(), len(w.d.LiveGroups()), w.listeners(),
 			w.shutReturned && w.d.Setups != w.setupsAtShutdown, len(simrt.Timers()), min(w.nBrowse, 2))
-		return hx.GView{Key: key, Enabled: en, Obs: strings.Join(w.d.Log, ",")}
+		obs := strings.Join(w.d.Log, ",")
+		// probe (the state key is taken, successors are built by replay): in every state with a reachable daemon and a
+		// live browser a service resolved now must reach the resolver callback - states that look alike may still
+		// differ in which channels the listener is waiting on
+		if !w.shut && w.d.AvahiUp && w.d.LiveBrowsers() > 0 {
+			nres := len(w.resolved)
+			w.apply("browse")
+			if len(w.resolved) == nres {
+				simrt.Fail("C19|browse-result-lost", "a service resolved while the daemon is reachable did not reach the resolver callback (probe after history %v)", hist)
+			}
+		}
+		return hx.GView{Key: key, Enabled: en, Obs: obs}
 	}
 }
 
